@@ -1,6 +1,7 @@
 (* C18 - PBN export is read back by the PBN parser, one game per board.
    Only statements, each closed by [exact]; proofs are in the files imported below. *)
-From BE Require Import Model.Json Model.Schema Model.Pbn Gen.JsonFraming Gen.Schemas Gen.Regexes Proofs.Json Proofs.Pbn Proofs.Pins Gen.PbnFns Proofs.PbnGen Proofs.PbnGenCor.
+From BE Require Import Model.Json Model.Schema Model.Pbn Model.JsonFramingHand Model.SchemasHand Gen.Regexes Proofs.Json Proofs.Pbn Proofs.Pins Proofs.JsonPins Gen.PbnFns Proofs.PbnGen Proofs.PbnGenCor.
+From BE Require Gen.JsonFraming Gen.Schemas.
 From Coq Require Import ZArith.
 Local Open Scope string_scope.
 Local Open Scope nat_scope.
